@@ -350,6 +350,21 @@ Theorem normalize_puts_null_right : forall r, null_on_the_right (normalize r) = 
 Proof. exact FoldAnywhere.normalize_puts_null_right. Qed.
 Print Assumptions normalize_puts_null_right.
 
+(* date/time literals (LTemporal: the spelling; no value in the model, lit_eval = None).  folding_anywhere_sound covers
+   them: a folder that decided anything about a date/time literal would turn None into Some.  The repaired rule of
+   /repo 1aeb8d9 (F17), stated directly: `==` / `!=` of two date/time literals is never folded ... *)
+Theorem temporal_comparison_never_folded : forall k s k' s' n, n = n_eq \/ n = n_ne ->
+  static_eval_op n [RLit (LTemporal k s); RLit (LTemporal k' s')] = ROp n [RLit (LTemporal k s); RLit (LTemporal k' s')].
+Proof. exact temporal_comparison_kept. Qed.
+Print Assumptions temporal_comparison_never_folded.
+(* ... and the rule it replaced (compare the spellings) is NOT a folding step that preserves the value: two spellings of
+   one instant *)
+Example ex_f17_rule_would_be_unsound :
+  let a := LTemporal 2 [50;48;50;48;45;48;49;45;48;49;84;48;48;58;48;48;58;48;48;90]%N in
+  let b := LTemporal 2 [50;48;50;48;45;48;49;45;48;49;84;48;48;58;48;48;58;48;48;43;48;48;58;48;48]%N in
+  lit_same_kind a b = true /\ eval_r [] (RLit (LBool (lit_eqb a b))) <> eval_r [] (ROp n_eq [RLit a; RLit b]).
+Proof. split; [vm_compute; reflexivity|vm_compute; discriminate]. Qed.
+
 (* non-vacuity: a run that is NOT bottom-up -- the outer `null ?? _` is folded while its operand `!true` is not *)
 Example ex_fold_outer_first :
   fold_steps (ROp n_coalesce [RLit LNull; ROp n_not [RLit (LBool true)]]) (ROp n_not [RLit (LBool true)]).
